@@ -199,4 +199,49 @@ def enumerate (v : View) (chainOpen : List Nat) : Res Numbering :=
       | _ => acc) (x1, next)
     .ok r.1
 
+/-! ### the linking hetero atom: `Monomer.find_oxygen`, `__check_root_id`, `root_atom_id` -/
+
+/-- `find_oxygen(binding_c_id)` (or with an explicit RDKit `position`): the O, else the N, bonded to the carbon by a single bond and
+    not exclusively in the main ring, if there is exactly one of that element; the carbon itself if there is no candidate at all. -/
+def findOxygenAt (v : View) (positions : List Nat) : Res Nat :=
+  match positions with
+  | [] => .raises "ValueError"
+  | [pos] =>
+    let cand := fun (z : Nat) => idx v (fun j => v.bo pos j == 1 && (v.at j).z == z && (v.at j).ring != 1)
+    match cand 8 with
+    | [o] => .ok o
+    | os =>
+      match cand 7 with
+      | [n] => .ok n
+      | ns => if os.isEmpty && ns.isEmpty then .ok pos else .raises "ValueError"
+  | _ => .unmodelled
+
+def findOxygen (v : View) (x : Numbering) (bindingC : Nat) : Res Nat :=
+  findOxygenAt v (idx v (fun i => x.getD i 0 == bindingC))
+
+def degSum (v : View) (i : Nat) : Nat := ((List.range v.n).map (fun j => v.bo j i)).sum
+
+/-- `__check_root_id`: a free O / N is taken as it is; otherwise the search walks outwards (breadth first, never through atoms
+    that are exclusively in the main ring) for a terminal O, remembering the first N with at most two bonds -/
+def checkRootGo (v : View) : Nat → List Nat → List Nat → Option Nat → Nat → Nat
+  | 0, _, _, cand, root => cand.getD root
+  | _, [], _, cand, root => cand.getD root
+  | fuel + 1, n :: rest, seen, cand, root =>
+    let more := (idx v (fun k => v.bo k n != 0 && (v.at k).ring != 1)).filter (fun k => !seen.contains k)
+    if (v.at n).z != 7 && (v.at n).z != 8 then checkRootGo v fuel (rest ++ more) (seen ++ [n]) cand root
+    else if (v.at n).z == 8 && degSum v n == 1 then n
+    else
+      let cand' := if (v.at n).z == 7 && degSum v n ≤ 2 && cand.isNone then some n else cand
+      checkRootGo v fuel (rest ++ more) (seen ++ [n]) cand' root
+
+def checkRootId (v : View) (root : Nat) : Nat :=
+  if ((v.at root).z == 8 && degSum v root ≤ 1) || ((v.at root).z == 7 && degSum v root ≤ 2) then root
+  else checkRootGo v (4 * v.n * v.n + 8) (idx v (fun k => v.bo k root != 0 && (v.at k).ring != 1)) [] none root
+
+def rootAtomId (v : View) (x : Numbering) (bindingC : Nat) : Res Nat :=
+  match findOxygen v x bindingC with
+  | .ok o => .ok (checkRootId v o)
+  | .raises w => .raises w
+  | .unmodelled => .unmodelled
+
 end Gly.EnumC
